@@ -1,5 +1,5 @@
 From SplVerif Require Import Lib.Base Tlv.Model Tlv.Spec Tlv.Ops Tlv.Corollaries Props.C12.
-From SplVerif Require Import ListView.Model Resolution.Account MetaList.Model MetaList.Proofs MetaList.Stored.
+From SplVerif Require Import ListView.Model Resolution.Account MetaList.Model MetaList.Proofs MetaList.Stored MetaList.Many.
 Local Open Scope N_scope.
 (* PINS *)
 Check C12_size_formula : forall k, 35 * k + 4 < USIZE_LIMIT -> ml_size_of k = Ok (12 + (4 + 35 * k)).
@@ -12,3 +12,6 @@ Check C12_other_lists_untouched : forall a t (v w : list byte) b t' r', (t' <> t
 Check C12_malformed : forall data t ms, (forall u, check_data data <> Ok u) -> (exists e, ml_init data t ms = (data, Err e)) /\ (exists e, ml_update data t ms = (data, Err e)) /\ (exists e, ml_reload data t = Err e).
 Check C12_reload_any_bytes : forall data t, match ml_reload data t with | Ok cfgs => Forall wf_extra cfgs | Err _ => True | Panic => False end.
 Check C12_exact_size : forall t ms, wf_tag t -> Forall wf_extra ms -> len ms < 100000000 -> let n := N.to_nat (12 + (4 + 35 * len ms)) in ml_init (zeros n) t ms = (render n [(t, lv_enc ms)], Ok tt) /\ exists e, ml_init (zeros (n - 1)) t ms = (zeros (n - 1), Err e).
+Check C12_many_instructions : forall ls n, Forall wf_ilist ls -> NoDup (map fst ls) -> total_size ls <= N.of_nat n -> init_all (zeros n) ls = (render n (stored ls), Ok tt) /\ forall t ms, In (t, ms) ls -> ml_reload (render n (stored ls)) t = Ok ms.
+Check C12_many_instructions_on_any_state : forall ls n es, fits n es -> Forall wf_ilist ls -> NoDup (map fst ls) -> (forall t, In t (map fst ls) -> ~ In t (map fst es)) -> len (enc es) + total_size ls <= N.of_nat n -> init_all (render n es) ls = (render n (es ++ stored ls), Ok tt) /\ fits n (es ++ stored ls).
+Check C12_many_instructions_one_byte_less : forall ls t ms n, Forall wf_ilist (ls ++ [(t, ms)]) -> NoDup (map fst (ls ++ [(t, ms)])) -> N.of_nat n + 1 = total_size (ls ++ [(t, ms)]) -> exists e, init_all (zeros n) (ls ++ [(t, ms)]) = (render n (stored ls), Err e).
